@@ -41,15 +41,17 @@ DirSeqs == {<<>>} \cup { <<a>> : a \in DirAlphabet } \cup { <<a, b>> : a \in Dir
 Paths == { [dirs |-> d, file |-> f] : d \in DirSeqs, f \in FileAlphabet }
 
 \* exclude patterns (glob crate semantics, root-relative): "pkg/**" and "**/test_a.py"
-ExcludeSets == { {}, {"pkg/**"}, {"**/test_a.py"}, {"pkg/**", "**/test_a.py"} }
+ExcludeSets == { {}, {"pkg/**"}, {"**/test_a.py"}, {"pkg/**", "**/test_a.py"}, {"**/pkg/**"} }
 Matches(pat, p) ==
     CASE pat = "pkg/**" -> Len(p.dirs) >= 1 /\ p.dirs[1] = "pkg"
       [] pat = "**/test_a.py" -> p.file = "test_a.py"
+      [] pat = "**/pkg/**" -> \E i \in 1..Len(p.dirs) : p.dirs[i] = "pkg"
 Excluded(p, ex) == \E pat \in ex : Matches(pat, p)
 
 \* where the root lives: components of the absolute path ABOVE the root, and the root's own name
 RootLocs == { [above |-> <<"plain">>, name |-> "ws"],
               [above |-> <<"site-packages">>, name |-> "ws"],
+              [above |-> <<"pkg">>, name |-> "ws"],            \* an ancestor named like an exclude pattern's component
               [above |-> <<"build">>, name |-> "ws"],
               [above |-> <<"env">>, name |-> "ws"],
               [above |-> <<".cache">>, name |-> "ws"],
